@@ -11,22 +11,22 @@ INC="-I$REPO -I$MC"
 # variant build: the OTHER compiler, optimised, assertions compiled out (an assert with a side effect vanishes)
 AS="-O2 -g -fsanitize=address -fno-omit-frame-pointer -DNDEBUG"
 H=$VERIF/harness/c16/c16_timers.cpp
-par g++ -std=c++17 -O2 -g $INC -c $REPO/igris/container/dlist.cpp -o $BUILD/dlist.o
-par clang++ -std=c++17 $AS $INC -c $REPO/igris/container/dlist.cpp -o $BUILD/dlista.o
+par g++ -std=c++20 -O2 -g $INC -c $REPO/igris/container/dlist.cpp -o $BUILD/dlist.o
+par clang++ -std=c++20 $AS $INC -c $REPO/igris/container/dlist.cpp -o $BUILD/dlista.o
 par clang $AS $INC -c $REPO/igris/datastruct/stimer.c -o $BUILD/stimera.o
 par gcc -O2 -g $INC -c $REPO/igris/datastruct/stimer.c -o $BUILD/stimer.o
-par g++ -std=c++17 -O2 -c -I$MC $MC/mc.cpp -o $BUILD/mc.o
-( g++ -std=c++17 -O2 -g $INC -fno-access-control -c $H -o $BUILD/h.o 2>$BUILD/h.err ) &
+par g++ -std=c++20 -O2 -c -I$MC $MC/mc.cpp -o $BUILD/mc.o
+( g++ -std=c++20 -O2 -g $INC -fno-access-control -c $H -o $BUILD/h.o 2>$BUILD/h.err ) &
 P1=$!
-( clang++ -std=c++17 $AS $INC -fno-access-control -DC16_ASAN -c $H -o $BUILD/ha.o 2>$BUILD/ha.err ) &
+( clang++ -std=c++20 $AS $INC -fno-access-control -DC16_ASAN -c $H -o $BUILD/ha.o 2>$BUILD/ha.err ) &
 P2=$!
 FULL=1
 wait $P1 || FULL=0
 wait $P2 || FULL=0
 if [ $FULL = 0 ]; then
   # no -fno-access-control here: this build must compile against the public interface alone
-  par g++ -std=c++17 -O2 -g $INC -DC16_PUBLIC_ONLY -c $H -o $BUILD/h.o
-  par clang++ -std=c++17 $AS $INC -DC16_PUBLIC_ONLY -DC16_ASAN -c $H -o $BUILD/ha.o
+  par g++ -std=c++20 -O2 -g $INC -DC16_PUBLIC_ONLY -c $H -o $BUILD/h.o
+  par clang++ -std=c++20 $AS $INC -DC16_PUBLIC_ONLY -DC16_ASAN -c $H -o $BUILD/ha.o
   if ! parwait; then cat $BUILD/h.err $BUILD/ha.err; exit 1; fi
   echo "NOTE: private state names changed, key built from public observers only" | tee $BUILD/notes.txt
 else
